@@ -137,10 +137,10 @@ theorem half_need (K : Kern α) (c : StageCfg) (s0 : StageSt) (hk : c.kind = .ha
 
 theorem clocked_need (K : Kern α) (c : StageCfg) (s0 : StageSt) (hk : c.kind = .clocked) (hden : 0 < c.den) (hist : List α)
     (m : Nat) (hm : 1 ≤ m) (h : (unitSem K c s0).Stable m hist) :
-    c.taps ≤ hist.length ∧ s0.clk + (m - 1) * c.step < c.den * (hist.length + 1 - c.taps) := by
+    c.prePost + 1 ≤ hist.length ∧ s0.clk + (m - 1) * c.step < c.den * (hist.length - c.prePost) := by
   have := h (m - 1) (by omega)
   simp only [unitSem, hk] at this
-  have h2 : c.taps ≤ hist.length ∧ (s0.clk + (m - 1) * c.step) / c.den < hist.length + 1 - c.taps := by
+  have h2 : c.prePost + 1 ≤ hist.length ∧ (s0.clk + (m - 1) * c.step) / c.den < hist.length - c.prePost := by
     generalize (s0.clk + (m - 1) * c.step) / c.den = qq at this ⊢
     omega
   refine ⟨h2.1, ?_⟩
